@@ -220,6 +220,7 @@ def _check_batch(R, F, fb, validators):
         validated = None
         err_assigned = False
         verdict = None
+        infeasible = False
         for i, b in enumerate(p[:-1]):
             tm = fb.term(b)
             for s in fb.blocks[b]["stmts"]:
@@ -233,6 +234,11 @@ def _check_batch(R, F, fb, validators):
                 if d[0] == "discr" and len(d) > 3 and d[3]:
                     vals = [v for v, tb in tm["targets"] if tb == p[i + 1]]
                     names = [n for (n, val) in d[3] if val in vals]
+                    if tm.get("otherwise") == p[i + 1]:
+                        listed = {v for v, tb in tm["targets"]}
+                        names += [n for (n, val) in d[3] if val not in listed]
+                    if not names:
+                        infeasible = True     # `otherwise` edge of an exhaustive variant switch
                     variants += names
                 else:
                     be = bool_edge(fb, b, p[i + 1])
@@ -242,6 +248,8 @@ def _check_batch(R, F, fb, validators):
             if tm["k"] == "call":
                 pass
         key = "/".join(variants) or "?"
+        if infeasible:
+            continue
         if "Err" in variants:
             R.ok(1, sample={"rule": "DISPATCH batch path", "variants": key, "status": "already-failed entry: nothing to validate"})
             continue
